@@ -48,7 +48,7 @@ def d_obj(o):
 def mk_field(name, tp, **kw):
     f = dict(name=name, alias=name, type=tp, dk="req", dv={"k": "null"}, flat=False, props="no",
              pat="", reqmd=False, skipd=False, skips=False, nau=False, fbd=False, kind="normal",
-             cons=[])
+             cons=[], skip_default=False, skip_if="", inherited=False)
     f.update(kw)
     return f
 
@@ -236,7 +236,7 @@ class Gen:
                 kind = "typeddict"
             elif "namedtuple" in feats and c < 0.22:
                 kind = "namedtuple"
-        spec = {"kind": kind, "fields": [], "depreq": []}
+        spec = {"kind": kind, "fields": [], "depreq": [], "smethods": [], "postinc": "", "bases": []}
         self.classes[name] = spec          # registered first: recursive references allowed
         nf = r.randint(0 if plain else 1, 4)
         names = r.sample(["a", "b", "c", "d", "ab", "a1"], nf)
